@@ -8,7 +8,7 @@ Local Open Scope N_scope.
 
 Record case := {
   c_text : text;
-  c_errs : list (bool * (N * N));                      (* parse errors: DocError?, byte range *)
+  c_errs : list ((bool * N) * (N * N));                (* parse errors: (DocError?, message id), byte range *)
   c_dis_syntax : bool;                                 (* syntax-error in diagnostics.disable *)
   c_dis_doc : bool;                                    (* doc-syntax-error in diagnostics.disable *)
   c_obs : list (bool * ((N * N) * (N * N)))            (* reported diagnostics with one of the two codes, in order *)
@@ -32,7 +32,7 @@ Definition model_list (c : case) : option (list (bool * ((N * N) * (N * N)))) :=
                 ws_enabled := []; cfg_severity := []; cfg_globals := []; cfg_globals_regex := []; cfg_level := L_Lua55 |} in
   let f := {| f_enabled := []; f_disabled := []; f_meta := false; f_workspace := Some main_workspace_id;
               f_suppressed := fun _ _ => false |} in
-  let errs := map (fun e => {| pe_doc := fst e; pe_range := snd e; pe_msg := [] |}) (c_errs c) in
+  let errs := map (fun e => {| pe_doc := fst (fst e); pe_range := snd e; pe_msg := [snd (fst e)] |}) (c_errs c) in
   match diagnose_file (translate_range (c_text c)) cfg f [syntax_error_checker errs []] with
   | None => None
   | Some ds => Some (map (fun d => (code_beq (d_code d) C_DocSyntaxError, d_range d)) ds)
